@@ -30,7 +30,8 @@ RotCounts == -8..8
 PWeight(q) == IF Len(q) = 0 THEN 0 ELSE SumSet({(i + 2) * (i + 1) * q[i] + i : i \in DOMAIN q}) + Len(q)
 PermU == {q \in PPermsUpTo(MaxPerm) : PWeight(q) % NShards = Shard}
 MeshU == {M \in UNION {MAllMesh(k) : k \in 0..MaxMesh} : (MRank(M) + Len(M.p)) % NShards = Shard}
-SetU == {S \in SUBSET PPermsBetween(1, SetMaxLen) : Cardinality(S) \in 1..SetMaxSize}
+\* (the empty collection is a set of permutations too: its orbit is the single empty set)
+SetU == {S \in SUBSET PPermsBetween(1, SetMaxLen) : Cardinality(S) \in 0..SetMaxSize}
 
 NoOp == [op |-> "init", k |-> 0]
 InitPerm == Mode = "perm" /\ perm \in PermU /\ shade = {} /\ pset = {} /\ last = NoOp
